@@ -487,3 +487,59 @@ def r_C14inst(root):
     e3 = call(res_fn, p1)
     rep(e3 is None and snapshot(U, V) == i0, "C14.j", "... and the restore of the replacing parser leaves the classes as they were", "after restore(p1) the user classes are not as before (%s%s)" % (describe((U, V), i0), "; " + e3 if e3 else ""))
     return inst, out
+
+def r_endconstruction(root):
+    """C14.q  the end of a model's construction, decided by evaluation of _end_model_construction with sample user classes
+    (own and inherited constructors) and a recording parser:
+       the user-class instrumentation is restored first; then every user object, in creation order, gets the attributes
+       collected for it set on itself, its entry leaves the class's storage, and its constructor - its own or an inherited
+       one - is called exactly once with exactly the attributes of its rule plus parent (collected extras such as
+       _tx_position are set but not passed); a constructor that raises TypeError propagates as TypeError naming the class,
+       the ids recorded for release are still there and the objects not yet initialised keep their collected attributes"""
+    from sa import pyeval
+    from sa.exprs import HS
+    out = []; inst = 0
+    t = load(root, M); fn = find(t, "_end_model_construction")
+    fns = {k: v for k, v in helper_functions(root, M, "_end_model_construction").items() if k != "_end_model_construction"}
+    def scenario(failing=None):
+        ev = []
+        def init(tag):
+            def f(self_, **kw):
+                ev.append(("init", self_.own.get("tag"), tag, dict(kw)))
+                if failing == self_.own.get("tag"):
+                    r_ = pyeval.Raised("TypeError"); r_.value = {".cls": "TypeError", ".args": ("unexpected keyword",)}; raise r_
+            return pyeval.Method(f)
+        Base = pyeval.ClassObj("PlainBase", {"__init__": init("inherited constructor"), "__name__": "PlainBase"})
+        attrs = {"name": HS({".name": "name"}), "kids": HS({".name": "kids"})}
+        U1 = pyeval.ClassObj("U1", {"__init__": init("own constructor"), "_tx_attrs": dict(attrs), "_tx_obj_attrs": {}, "__name__": "U1"})
+        U2 = pyeval.ClassObj("U2", {"_tx_attrs": dict(attrs), "_tx_obj_attrs": {}, "__name__": "U2"}, bases=[Base])
+        objs = [pyeval.InstObj(U1, {"tag": "o1"}), pyeval.InstObj(U2, {"tag": "o2"}), pyeval.InstObj(U1, {"tag": "o3"})]
+        parent = HS({".kind": "obj", ".name": "container"})
+        for i, o in enumerate(objs): o.cls.own["_tx_obj_attrs"][id(o)] = {"name": "n%d" % i, "kids": [i], "parent": parent, "_tx_position": 10 * i, "_tx_position_end": 10 * i + 5}
+        parser = HS({".kind": "parser", "._user_class_inst": list(objs), "._user_obj_ids": [id(o) for o in objs], ".dprint": pyeval.PyFn(lambda *a: None), ".debug": False,
+                     "._restore_user_attr_methods": pyeval.PyFn(lambda: ev.append(("restore",)))})
+        model = pyeval.InstObj(pyeval.ClassObj("Model", {"__name__": "Model"}), {"_tx_reference_resolver": "the resolver", "_tx_parser": parser})
+        env = {"__functions__": fns, "__module__": t, fn.args.args[0].arg: model, "traceback": {".print_exc": pyeval.PyFn(lambda *a: None), ".format_exc": pyeval.PyFn(lambda *a: "")}, "__maxdepth__": 12}
+        try: k, v = "ret", pyeval.run_block(fn.body, env, max_steps=4000)
+        except pyeval.Raised as r_: k, v = "raise", r_
+        except pyeval.Unsupported as u_: raise AnalysisError("_end_model_construction: outside the evaluated subset: %s" % u_)
+        return k, v, ev, objs, (U1, U2), parser, model, parent
+    W = "_end_model_construction"
+    def rep(what, ok, msg):
+        nonlocal inst
+        inst += 1; ob("C14", "C14.q", M, W, what, ok)
+        if not ok: out.append(Finding("C14", "C14.q", M, W, what, msg))
+    k, v, ev, objs, (U1, U2), parser, model, parent = scenario()
+    inits = [e for e in ev if e[0] == "init"]
+    want = [("init", "o1", "own constructor", {"name": "n0", "kids": [0], "parent": parent}), ("init", "o2", "inherited constructor", {"name": "n1", "kids": [1], "parent": parent}), ("init", "o3", "own constructor", {"name": "n2", "kids": [2], "parent": parent})]
+    rep("every user object is initialised once, in creation order, with the attributes of its rule and parent", k == "ret" and inits == want and ev[:1] == [("restore",)],
+        "ending the construction of a model with three user objects (o1: own constructor, o2: constructor inherited from a plain Python base class, o3) %s with the steps %s; documented: the instrumentation is restored, then o1, o2, o3 are each initialised exactly once with name, kids and parent (collected extras such as _tx_position are not constructor arguments)" % ("returns" if k == "ret" else "raises " + v.cls, [(e[0],) + tuple(e[1:3]) + (sorted(e[3]),) if e[0] == "init" else e for e in ev]))
+    if k == "ret":
+        rep("the collected attributes are set on the object and leave the class's storage", all(o.own.get("name") == "n%d" % i and o.own.get("_tx_position") == 10 * i and o.own.get("parent") is parent for i, o in enumerate(objs)) and not U1.own["_tx_obj_attrs"] and not U2.own["_tx_obj_attrs"] and "_tx_reference_resolver" not in model.own,
+            "after the end of the construction the objects carry %s, the classes' storages hold %d / %d entries and the construction mark is %s; documented: every collected attribute (also _tx_position) is set on its object, the storages are empty, the mark is gone" % ([sorted(k_ for k_ in o.own if k_ != "tag") for o in objs], len(U1.own["_tx_obj_attrs"]), len(U2.own["_tx_obj_attrs"]), "still there" if "_tx_reference_resolver" in model.own else "gone"))
+    k, v, ev, objs, (U1, U2), parser, model, parent = scenario(failing="o2")
+    okf = k == "raise" and v.cls == "TypeError" and [e[1] for e in ev if e[0] == "init"] == ["o1", "o2"] and parser["._user_obj_ids"] == [id(o) for o in objs] and id(objs[2]) in U1.own["_tx_obj_attrs"]
+    args_ = v.value.get(".args") if k == "raise" and isinstance(getattr(v, "value", None), dict) else None
+    rep("a constructor that rejects its arguments", okf and isinstance(args_, tuple) and any("U2" in str(a) for a in args_),
+        "when the constructor of the second user object raises TypeError the end of the construction %s (arguments %s), constructors run for %s, the ids recorded for release are %s and the third object's collected attributes are %s; documented: TypeError naming the class U2 propagates, o3 is not initialised, the recorded ids and the collected attributes of o3 are still there for the failure clean-up to release" % ("raises " + v.cls if k == "raise" else "returns", args_, [e[1] for e in ev if e[0] == "init"], "kept" if parser["._user_obj_ids"] == [id(o) for o in objs] else "forgotten (%d of 3)" % len(parser["._user_obj_ids"]), "kept" if id(objs[2]) in U1.own["_tx_obj_attrs"] else "gone"))
+    return inst, out
